@@ -83,6 +83,12 @@ CHECKS = {
         "note": TRUST + " The model is of one extent and takes the sequential composition acquire -> load sector -> pread -> release from the code; the value_source chain of deferred TTL rewrites is exercised by the runs, not modelled separately. Recency is decided by the run-time oracle, not by a theorem.",
         "design": "DESIGN.md section 5 C08",
     },
+    "C19": {
+        "category": "partial",
+        "text": "Partial. Proved in Coq over Model/WriteBehind.v for every shard count S, every worker count W >= 1 and every interleaving of writers, coordinator ticks and worker passes: each shard is owned by exactly one worker (its residue class, as flush_worker_shards strides); at every tick the coordinator wakes the owner of every non-empty shard and worker 0 whenever retirements are pending; a worker's pass empties all its shards; hence an entry queued in any shard is gone once its owner has run, whatever else happens -- nothing can be overlooked indefinitely. Not provable in this model: that a woken worker is scheduled and its I/O returns within the stated time. Tie: real stores built with 1..8 shards (CPU visibility 1..16), workloads that never flush, killed 1.5-2 s after the last call: the image made of fsync-covered writes only must contain every accepted write and, when idle, no un-retired superseded generation.",
+        "note": TRUST + " The time bound itself (flush interval + I/O) is measured, not proved; the theorem is the liveness skeleton: ownership partition + coordinator coverage + pass completeness.",
+        "design": "DESIGN.md section 5 C19",
+    },
     "C15": {
         "text": "Coq: the read-only recovery used for the migration source writes nothing for any image and outcome (source untouched); a successful migration spec means no destination existed, the source is v1/v2 with a successful read-only recovery, and the destination record list is exactly the recovered keys with identical timestamps and absolute expiries (TTL filtering off, so expired newest generations are copied and no older value can reappear). Tie: the real migrate() on engine-built and damaged legacy images vs migrate_spec of the source image (outcome, report, destination contents read back by the real store), with an oracle for non-destructiveness (source hash, no publication or temporary on failure, existing destination untouched, v3 result).",
         "note": TRUST + " Filesystem operations (hard_link publication, rollback, directory sync) are observed, not modelled; record-by-record verification inside migrate() is covered only through its outcome.",
